@@ -270,8 +270,9 @@ def pair(a: int, b: int, k: int) -> bool:
   pre: 0 <= a <= 11 and 0 <= b <= 11 and 0 <= k <= 11
   post: _
   """
-  a, b, k = conc(a, 0, 11), conc(b, 0, 11), conc(k, 0, 11)
+  a = conc(a, 0, 11)
   sl = os.environ.get('VERIF_SLICE')
   if sl is not None and a != int(sl):
     return True
+  b, k = conc(b, 0, 11), conc(k, 0, 11)
   return _schedule(RPCS[a], RPCS[b], k, (a, b, k))
